@@ -3,6 +3,7 @@ CONSTANTS
   Variant = "twophase"
   Level = 1
   MaxFaults = 2
+  Ext = 0
   Emit = FALSE
 INVARIANT TypeOK
 INVARIANT InvRunAgrees
